@@ -113,7 +113,7 @@ func vc13Last(name string, ver int) (h string)  { return fmt.Sprintf("last-%s-v%
 
 // vc13Body returns the complete content of version ver of slot s with fill
 // filler entries between the first and the last marker.
-func vc13Body(s *vc13Slot, ver, fill int, svcFlavor string) (b []byte) {
+func vc13Body(s *vc13Slot, ver, fill int, svcFlavor string, pad int) (b []byte) {
 	hosts := make([]string, 0, fill+2)
 	hosts = append(hosts, vc13First(s.name, ver))
 	for i := 0; i < fill; i++ {
@@ -125,21 +125,24 @@ func vc13Body(s *vc13Slot, ver, fill int, svcFlavor string) (b []byte) {
 	switch s.kind {
 	case vc13KindRule:
 		fmt.Fprintf(sb, "! vc13 list %s version %d\n", s.name, ver)
+		vc13PadLines(sb, "! ", pad)
 		for _, h := range hosts {
 			fmt.Fprintf(sb, "||%s^\n", h)
 		}
 	case vc13KindSS:
 		fmt.Fprintf(sb, "! vc13 list %s version %d\n", s.name, ver)
+		vc13PadLines(sb, "! ", pad)
 		for _, h := range hosts {
 			fmt.Fprintf(sb, "|%s^$dnsrewrite=NOERROR;CNAME;safe-%s.test\n", h, s.name)
 		}
 	case vc13KindHash:
 		fmt.Fprintf(sb, "# vc13 list %s version %d\n", s.name, ver)
+		vc13PadLines(sb, "# ", pad)
 		for _, h := range hosts {
 			fmt.Fprintf(sb, "%s\n", h)
 		}
 	case vc13KindSvc:
-		return vc13SvcBody(hosts, ver, svcFlavor)
+		return vc13SvcBody(hosts, ver, svcFlavor, pad)
 	default:
 		panic("vc13: bad slot kind")
 	}
@@ -147,12 +150,33 @@ func vc13Body(s *vc13Slot, ver, fill int, svcFlavor string) (b []byte) {
 	return []byte(sb.String())
 }
 
+// vc13PadLines writes exactly pad octets of comment lines (none if pad is less
+// than the length of an empty comment line), none longer than 200 octets, so
+// that a body can be given an exact size without changing what it means.
+func vc13PadLines(sb *strings.Builder, prefix string, pad int) {
+	for pad > 0 {
+		n := min(pad, 200)
+		if rest := pad - n; rest > 0 && rest < len(prefix)+1 {
+			n -= len(prefix) + 1
+		}
+
+		if n < len(prefix)+1 {
+			panic("vc13: pad is too small")
+		}
+
+		sb.WriteString(prefix)
+		sb.WriteString(strings.Repeat("x", n-len(prefix)-1))
+		sb.WriteString("\n")
+		pad -= n
+	}
+}
+
 // vc13SvcBody returns a blocked-service index.  The first half of hosts goes
 // to service A, the rest to service B, so the first marker and the last marker
 // live in different services.  flavor adds one entry between them.
-func vc13SvcBody(hosts []string, ver int, flavor string) (b []byte) {
+func vc13SvcBody(hosts []string, ver int, flavor string, pad int) (b []byte) {
 	if flavor == "notjson" {
-		return []byte(fmt.Sprintf("<html><body>maintenance, services v%d</body></html>\n", ver))
+		return []byte(fmt.Sprintf("<html><body>maintenance, services v%d</body></html>\n%s", ver, strings.Repeat("x", pad)))
 	}
 
 	rules := func(hs []string) (rs []string) {
@@ -180,7 +204,12 @@ func vc13SvcBody(hosts []string, ver int, flavor string) (b []byte) {
 
 	svcs = append(svcs, map[string]any{"id": string(vc13SvcB), "name": "B", "rules": rules(hosts[mid:])})
 
-	b, err := json.MarshalIndent(map[string]any{"blocked_services": svcs, "vc13_version": ver}, "", " ")
+	m := map[string]any{"blocked_services": svcs, "vc13_version": ver}
+	if pad > 0 {
+		m["pad"] = strings.Repeat("p", pad)
+	}
+
+	b, err := json.MarshalIndent(m, "", " ")
 	if err != nil {
 		panic(err)
 	}
@@ -220,7 +249,7 @@ func vc13IndexBody(base string, ver int, entries []vc13Entry, notJSON bool, pad 
 	if notJSON {
 		info.class = "garbage"
 
-		return []byte(fmt.Sprintf("<html><body>maintenance, index v%d</body></html>\n", ver)), info
+		return []byte(fmt.Sprintf("<html><body>maintenance, index v%d</body></html>\n%s", ver, strings.Repeat("x", pad))), info
 	}
 
 	worse := func(c string) {
